@@ -252,8 +252,13 @@ func (w *world) mustProbes() []headCase {
 		add("da.Query.ZkpProofThreshold", &datypes.QueryZkpProofThresholdRequest{ShardCount: c}, "shard count edge")
 	}
 	for _, idx := range []int64{0, 2, 3, -1} {
-		add("da.Msg.SubmitValidityProof", &datypes.MsgSubmitValidityProof{Sender: sdk.AccAddress(w.valBytes).String(), ValidatorAddress: val,
-			MetadataUri: "ipfs://challenged", Indices: []int64{idx}, Proofs: [][]byte{emptyProof()}}, "index edge")
+		for _, sender := range []string{sdk.AccAddress(w.valBytes).String(), w.deputy, a1} {
+			add("da.Msg.SubmitValidityProof", &datypes.MsgSubmitValidityProof{Sender: sender, ValidatorAddress: val,
+				MetadataUri: "ipfs://challenged", Indices: []int64{idx}, Proofs: [][]byte{w.proofs[0]}}, "index edge")
+			// a valid first proof, then the edge index
+			add("da.Msg.SubmitValidityProof", &datypes.MsgSubmitValidityProof{Sender: sender, ValidatorAddress: val,
+				MetadataUri: "ipfs://challenged", Indices: []int64{1, idx}, Proofs: [][]byte{w.proofs[1], w.proofs[0]}}, "index edge, second")
+		}
 	}
 	add("da.Query.ProofDeputy", &datypes.QueryProofDeputyRequest{ValidatorAddress: val}, "validator")
 	add("da.Query.AllPublishedData", &datypes.QueryAllPublishedDataRequest{}, "")
